@@ -99,11 +99,11 @@ def stmt_text(s, r):
     if form == 'call':
         return f'zshow2 {t}&, (0 + {e})'
     if form == 'store':
-        return f'zarr(1) = 4 + {e}: PRINT {t}&; zarr(1)'
+        return f'zarr(2) = 4 + {e}: PRINT {t}&; zarr(2)'      # (zarr(1) is what the repaired subscript cause reads)
     if form == 'strassign':
         return f'zs$ = "x" + STR$({e}): PRINT {t}&; zs$'
     if form == 'if':
-        return f'IF {e} >= 0 THEN\nPRINT {t}&\nEND IF'
+        return f'IF ({e}) * 0 = 0 THEN\nPRINT {t}&\nEND IF'      # true whenever the expression evaluates at all
     if form == 'for':
         return f'FOR zfi% = {e} TO 0\nNEXT\nPRINT {t}&'
     if form == 'select':
